@@ -884,6 +884,19 @@ func attributeModel(r *rng, m *Model) {
 	for _, c := range m.Conds {
 		c.Module, c.File = attr(pc)
 	}
+	// a relation without a direct assignment may lack its metadata entry
+	// altogether (JSON / protobuf): it is unattributed like one whose entry
+	// names no module
+	if r.chance(12) {
+		for _, t := range m.Types {
+			for _, rel := range t.Relations {
+				if len(rel.Direct) == 0 && !containsThis(rel.Expr) && r.chance(50) {
+					rel.NoMeta = true
+					rel.Module, rel.File = "", ""
+				}
+			}
+		}
+	}
 }
 
 // unhoist moves the direct assignment of unions/intersections away from the
